@@ -155,14 +155,14 @@ class C20b(Obligation):
     sym_containers = True
     assumptions = (
         'the environment/explicit/added entries are arbitrary strings (<=2/2/2), the environment path contains at most one ""',
-        'project path and script path are component lists; the script is at depth<=3 below the project or outside it; '
+        'project path and script path are component lists; the script is at depth<=3 below the project, outside it, or in a sibling directory whose name extends the project name; '
         'presence of __init__.py per ancestor is a symbolic boolean (file-system stub); buildout discovery returns nothing',
     )
 
     def configs(self, tier):
         out = []
         depths = (0, 1, 2, 3) if tier == 'quick' else (0, 1, 2, 3, 4)
-        for where in ('inside', 'outside', 'nopath'):
+        for where in ('inside', 'outside', 'sibling', 'nopath'):
             for d in (depths if where == 'inside' else (1,)):
                 for explicit in (False, True):
                     out.append(dict(where=where, depth=d, explicit=explicit, n=2, n_added=1 if tier == 'quick' else 2))
@@ -195,6 +195,11 @@ class C20b(Obligation):
                 inner.append(d)
         elif cfg['where'] == 'outside':
             script_path = ctx.path(['home', 'other', 'mod.py'])
+        elif cfg['where'] == 'sibling':
+            # a directory NEXT TO the project whose name merely starts with the project's name
+            tail = ctx.str('sibling_tail', exclude='/\n\0')
+            ctx.assume(ctx.len(tail) > 0)
+            script_path = ctx.path(['home', 'proj' + tail, 'unit', 'mod.py'])
         smart = ctx.flag('smart_sys_path')
         n = cfg['n']
         base = [ctx.str('env%d' % i, maxlen=4) for i in range(n)]
